@@ -85,6 +85,19 @@ def cfg_with(base, directives=(), constants=None):
     return out
 
 
+def gen_module(base, defs):
+    """Generated wrapper module carrying literal constants that a cfg file cannot express (tuples,
+    functions): returns (module name, {file: text}, cfg constant lines)."""
+    name = "Gen_" + base
+    body = ["---- MODULE %s ----" % name, "EXTENDS %s" % base]
+    lines = []
+    for k, v in defs.items():
+        body.append("GenConst_%s == %s" % (k, tla_value(v)))
+        lines.append(" %s <- GenConst_%s" % (k, k))
+    body.append("====")
+    return name, {name + ".tla": "\n".join(body) + "\n"}, lines
+
+
 def tla_value(v):
     """Python value -> TLA+ literal (cfg-safe subset: ints, bools, strings, sets, tuples)."""
     if isinstance(v, bool):
@@ -198,6 +211,9 @@ def run_tlc(module, cfg=None, cfg_text=None, mode="check", workers=None, sim_num
                 if m:
                     res.violated = m.group(1)
                     in_trace = True
+                    if "by the initial state" in line:
+                        cur_state = ["Initial predicate", []]
+                        res.trace.append(cur_state)
                     continue
                 m = _RE_PROP.match(line)
                 if m:
